@@ -1,5 +1,6 @@
 import JunoModel.Common.Proto
 import JunoModel.C13.Model
+import JunoModel.C13.ModelTm
 /-!
 Line-protocol driver for the C13 model (`lake build c13drv`).
 
@@ -16,6 +17,13 @@ Requests (numbers decimal; `nil` is the nil id):
   ract <action>*                 execute(isReplaying=true, actions)            → <committed 0|1> <effect>*
   close                          regular stop (Close flushes the pending batch)   → flush
   state                                                                       → chain=… pruned=… pending=<n> live=<entry,…|->
+  env <me> <pmul> <powers,…> <tbl,…>   validator set / proposer table / node (addresses are index+1)  → ok
+  boot <h>                       create the state machine (C12's transcription of juno's) at height h → ok
+  in <start|entry>               listen: the MODEL MACHINE processes the input (ProcessStart(0) / message /
+                                 timeout), execute(isReplaying=false) of what it returns
+                                                                → <committed 0|1> <effect>* | <action>*
+  rin <entry>                    replay: skip rule on the model machine's height, ProcessWAL, execute(true)
+                                                                → skip | <committed 0|1> <effect>* | <action>*
   push / pop                     save / restore the whole model state (to explore several crash
                                  points of the same history)                   → ok
 Tokens:
@@ -75,11 +83,79 @@ def showEffect : Effect → String
 def showEntries (l : List Entry) : String :=
   if l.isEmpty then "-" else ",".intercalate (l.map showEntry)
 
+/-- Environment of the model machine, as the harness' stable application and validator set. -/
+structure EnvCfg where
+  me : Nat := 1
+  pmul : Nat := 0
+  powers : List Nat := [1]
+  tbl : List Nat := [1]
+  deriving Inhabited
+
+/-- The harness' replay-stable value source: the `k`-th `Value()` call at height `h`. -/
+def stableValue (h k : Nat) : Nat :=
+  let v := h * 1000 + k * 10 + 1
+  if v % 7 == 3 then v + 1 else v
+
 structure DS where
   base : Node            -- node at the beginning of the epoch (after reset / crash)
   trace : List Effect    -- effects of this epoch, oldest first
   cur : Node
+  ecfg : EnvCfg := {}
+  mach : Option Juno.C12.Machine := none
+  kAtHeight : Nat := 0   -- Value() calls at the machine's current height so far
   deriving Inhabited
+
+/-- `Env` of C12's model for the next step: validators from the configuration; `appValue c` is what
+the `c`-th call (global counter of the model machine) returns = the next values of this height. -/
+def mkEnvBase (c : EnvCfg) (app : Nat → Nat) : Juno.C12.Env :=
+  { totalPower := fun _ => c.powers.foldl (· + ·) 0,
+    power := fun _ a => if a == 0 then 0 else (c.powers[a - 1]?).getD 0,
+    proposer := fun h r =>
+      let n := c.tbl.length
+      if n == 0 then 0 else
+      let idx := ((h * c.pmul : Nat) + r) % n
+      (c.tbl[idx.toNat]?).getD 0 + 1,
+    valid := fun v => v % 7 != 3,
+    appValue := app }
+
+def mkEnv (c : EnvCfg) (m : Juno.C12.Machine) (k : Nat) : Juno.C12.Env :=
+  mkEnvBase c (fun cnt => stableValue m.state.height (k + (cnt - m.valueCalls)))
+
+def showAction : Action → String
+  | .writeWAL e => "W/" ++ showEntry e
+  | .broadcastProposal h r vr v => s!"BP:{h}:{r}:{vr}:{v}"
+  | .broadcastPrevote h r id => s!"BV:{h}:{r}:{showId id}"
+  | .broadcastPrecommit h r id => s!"BC:{h}:{r}:{showId id}"
+  | .scheduleTimeout st h r => s!"ST:{st}:{h}:{r}"
+  | .commit h v => s!"CM:{h}:{v}"
+  | .triggerSync a b => s!"TS:{a}:{b}"
+
+def isSync : Action → Bool
+  | .triggerSync .. => true
+  | _ => false
+
+/-- One step of the model machine on `i`, then `execute` of the returned actions (a `TriggerSync`
+is reported but not executed: the harness keeps it from the real driver). -/
+def machStep (replaying : Bool) (s : DS) (i : Input) : DS × String :=
+  match s.mach with
+  | none => (s, "bad-op")
+  | some m =>
+    let env := mkEnv s.ecfg m s.kAtHeight
+    let M := tmMachine env s.ecfg.me
+    let r := M.step m i
+    let m' := r.1
+    let k' := if m'.state.height == m.state.height then s.kAtHeight + (m'.valueCalls - m.valueCalls) else 0
+    let acts := r.2
+    let effs := effectsOf replaying (acts.filter (fun a => !isSync a))
+    let flag := if committed acts then "1" else "0"
+    ({ s with trace := s.trace ++ effs, cur := applyEffects s.cur effs, mach := some m', kAtHeight := k' },
+      " ".intercalate (flag :: effs.map showEffect) ++ " | " ++ " ".intercalate (acts.map showAction))
+
+def parseNats (s : String) : Option (List Nat) := (s.splitOn ",").mapM String.toNat?
+
+def parseInput? (s : String) : Option Input :=
+  if s == "start" then some .start else (parseEntry? s).map Entry.toInput
+
 
 def parseActions (ws : List String) : Option (List Action) := ws.mapM parseAction?
 
@@ -96,10 +172,29 @@ def step1 (s : DS) (line : String) : DS × String :=
   match words line with
   | ["reset", h] =>
     match h.toNat? with
-    | some h => (⟨Node.fresh h, [], Node.fresh h⟩, "ok")
+    | some h => ({ s with base := Node.fresh h, trace := [], cur := Node.fresh h, mach := none }, "ok")
     | none => (s, "bad-op")
   | "live" :: ws => runActs false s ws
   | "ract" :: ws => runActs true s ws
+  | ["env", me, pmul, powers, tbl] =>
+    match me.toNat?, pmul.toNat?, parseNats powers, parseNats tbl with
+    | some me, some pmul, some powers, some tbl => ({ s with ecfg := ⟨me, pmul, powers, tbl⟩ }, "ok")
+    | _, _, _, _ => (s, "bad-op")
+  | ["boot", h] =>
+    match h.toNat? with
+    | some h =>
+      ({ s with mach := some (Juno.C12.Machine.new (mkEnvBase s.ecfg (fun _ => 0)) s.ecfg.me h),
+                kAtHeight := 0 }, "ok")
+    | none => (s, "bad-op")
+  | ["in", tok] =>
+    match parseInput? tok with
+    | some i => machStep false s i
+    | none => (s, "bad-op")
+  | ["rin", tok] =>
+    match parseEntry? tok, s.mach with
+    | some e, some m =>
+      if skipOnReplay m.state.height e then (s, "skip") else machStep true s e.toInput
+    | _, _ => (s, "bad-op")
   | ["close"] =>
     -- regular stop: `Run`'s deferred `db.Close()` flushes what is pending
     ({ s with trace := s.trace ++ [Effect.flush], cur := applyEffects s.cur [Effect.flush] }, "flush")
@@ -108,7 +203,7 @@ def step1 (s : DS) (line : String) : DS × String :=
     | some k =>
       if k > s.trace.length then (s, "bad-op") else
       let n := (applyEffects s.base (s.trace.take k)).crash
-      (⟨n, [], n⟩,
+      ({ s with base := n, trace := [], cur := n, mach := none },
         s!"h={n.chainHeight + 1} pruned={n.store.pruned} log={showEntries n.store.load}")
     | none => (s, "bad-op")
   | ["rentry", h, e] =>
@@ -129,4 +224,4 @@ def step (st : List DS) (line : String) : List DS × String :=
     | ["pop"] => if rest.isEmpty then (st, "bad-op") else (rest, "ok")
     | _ => let r := step1 s line; (r.1 :: rest, r.2)
 
-def main : IO Unit := loop step [⟨Node.fresh 0, [], Node.fresh 0⟩]
+def main : IO Unit := loop step [{ base := Node.fresh 0, trace := [], cur := Node.fresh 0 }]
